@@ -855,7 +855,8 @@ def translator_cross_check(report, status):
 
 
 def kernel_cross_check(ctx, report, status):
-    """The REAL compiled `compute_ambiguity`, `compute_risk`, `compute_interval_bounds` on a few hundred small cost volumes
+    """The REAL compiled `compute_ambiguity`, `compute_ambiguity_and_sampled_ambiguity`, `compute_risk`,
+    `compute_interval_bounds` on a few hundred small cost volumes
     against the translator's exact reading of their source (`pyvec.evaluate_px` on the per-pixel tree the Lean text of
     Generated/KernelsConf.lean is printed from; Lean's own reading of that text is checked at build time by the generated
     `example`s).  Dyadic data: every float operation of the kernels is exact, so the comparison is exact (the eta-means of
@@ -880,7 +881,11 @@ def kernel_cross_check(ctx, report, status):
         x = float(x)
         return pyvec.FNAN if math.isnan(x) else (pyvec.PINF if x == math.inf else pyvec.NINF if x == -math.inf else Fraction(x))
 
-    def same(exact_val, real):  # exact value of the reading vs a float32 cell
+    def same(exact_val, real):  # exact value of the reading vs a float32 cell (or a vector of them)
+        if isinstance(real, list):
+            return isinstance(exact_val, list) and len(exact_val) == len(real) and all(same(v, w) for v, w in zip(exact_val, real))
+        if isinstance(exact_val, list):
+            return False
         if isinstance(exact_val, str):
             return fl(real) == exact_val
         return not math.isnan(float(real)) and float(np.float32(float(exact_val))) == float(real)
@@ -903,7 +908,7 @@ def kernel_cross_check(ctx, report, status):
         dispf = np.array([float(d) for d in disp], dtype=np.float32)
         with np.errstate(all="ignore"):
             amb = ambiguity.Ambiguity.compute_ambiguity(cost, *args)
-            _, sampled = ambiguity.Ambiguity.compute_ambiguity_and_sampled_ambiguity(cost, *args)
+            amb2, sampled = ambiguity.Ambiguity.compute_ambiguity_and_sampled_ambiguity(cost, *args)
             rmax, rmin = risk.Risk.compute_risk(cost, sampled, *args)
             binf, bsup = interval_bounds.IntervalBounds.compute_interval_bounds(cost, dispf, f4(float(thr)), f4(tf))
         report.count("kernel_translation_calls")
@@ -912,7 +917,8 @@ def kernel_cross_check(ctx, report, status):
                 curve = [fl(x) for x in cost[r, c, :]]
                 base = {"min_cost": gmin, "max_cost": gmax}
                 got = {}
-                want = {"computeAmbiguityPx": [amb[r, c]], "computeRiskPx": [rmax[r, c], rmin[r, c]],
+                want = {"computeAmbiguityPx": [amb[r, c]], "computeAmbiguitySampledPx": [amb2[r, c], [x for x in sampled[r, c, :]]],
+                        "computeRiskPx": [rmax[r, c], rmin[r, c]],
                         "computeIntervalBoundsPx": [binf[r, c], bsup[r, c]]}
                 for name, k in ks.items():
                     a = {}
@@ -940,7 +946,7 @@ def kernel_cross_check(ctx, report, status):
                         if problems <= 3:
                             status.problem("translator", f"translated {k.py_name} evaluates differently from the real kernel on curve={cost[r, c, :].tolist()} "
                                            f"min={gmin} max={gmax} etas={[str(e) for e in etas]} threshold={thr} type_factor={tf}",
-                                           f"real={[float(x) for x in want[name]]} reading={res} {[str(v) for v in (vals or [])]}")
+                                           f"real={[([float(y) for y in x] if isinstance(x, list) else float(x)) for x in want[name]]} reading={res} {[str(v) for v in (vals or [])]}")
 
 
 def run(ctx, report, status):
